@@ -51,6 +51,28 @@ CHECKS['C18'] = ('exploration',
    'Table is exhaustive over the names the harness knows or can probe (122k candidate spellings); points of space are sampled; tapered pairs checked at the aligned position and towards the thin end.',
    'DESIGN.md 2/C18')
 
+
+CHECKS['C01'] = ('exploration',
+   'runtime probing of BoundingBox() vs Evaluate() on constructed shapes: face shell, moat, interior rays and a directed local search for negative values outside the box',
+   'Builds every catalogued constructor of sdf/ and obj/ with PRNG-drawn in-domain parameters and random expression trees over all combinators, then searches the outside of each reported box for material (thin shell on faces/edges/corners, moat to 3x, rays from interior material, shrinking-Gaussian descent constrained outside the box). Finite/ordered boxes are asserted on every shape.',
+   'Points of space are sampled (6k quick / 40k thorough probes per shape); blended combinators are outside the enumerated domain of C01; Offset/Shell only over operands whose value bounds the box distance.',
+   'DESIGN.md 2/C01')
+CHECKS['C02'] = ('exploration',
+   'reference-interpreter differential monitor: real composed shapes vs an independent evaluation of the same expression tree (own matrix inverse, folds, clamps) calling real code only on leaves; law monitors for blends, cache histories, voxel lattices and a probe-leaf check of the slicing frame',
+   'Random trees over every combinator are evaluated at hostile points (symmetry planes, sector boundaries +-delta, rotation axis, far field) and compared with the reference semantics; blend laws (<= min, symmetric, PolyMin in [min-k/4, min], PolyMax mirror) on the functions and on root-blended real shapes; cache wrappers under query histories with repeats; voxel wrappers at lattice corners and inside cells; Slice2D frame is an orthonormal right-handed frame of the plane fixing a.',
+   'Depth <= 3 quick / <= 5 thorough; tolerance 1e-9*(size+|p|)+1e-11*|value|; twist direction taken as implemented (sign flips are still detected).',
+   'DESIGN.md 2/C02')
+CHECKS['C03'] = ('exploration',
+   'runtime comparison of Evaluate() with independent closed-form / brute-force Euclidean distance oracles; pairwise Lipschitz and in-ball sign monitors on 1-Lipschitz expression trees',
+   'Every exact primitive over hostile parameter vectors (needle/plate sizes, rounding 0 / tiny / admissible maximum, sharp cone tips), optionally under rigid transform, uniform scale, outward offset or full revolution, is compared with its Euclidean distance at points stratified over branch regions; 1-Lipschitz trees (incl. PolyMin/PolyMax, rotate-copy over symmetric operands) are probed with close/medium/far pairs and with points inside the ball of radius |f(p)|.',
+   'Known finding (pinned, KNOWN-FINDING line): rotate-copy of an operand that is not mirror-symmetric about the sector axis is discontinuous; the random workload keeps rotate-copy operands symmetric.',
+   'DESIGN.md 2/C03')
+CHECKS['C12'] = ('fault_enumeration',
+   'OS-level fault injection in child processes (RLIMIT_FSIZE at enumerated byte offsets, /dev/full, create failures) with the Go runtime deadlock detector as logical hang oracle; goroutine census (pprof goroutine profile filtered on sdfx frames) at quiescence after each of K renders',
+   'Each ToSTL/To3MF/ToDXF/ToSVG call runs on the main goroutine of a child with no timers; if the writer has gone and the renderer blocks on the channel the runtime reports "all goroutines are asleep - deadlock!", which (or a dump with the caller in chan send) is the violation; returned calls print a marker. Fault points: create (3 kinds), /dev/full, size limits at header, first flush, every n-th flush (thorough: all multiples of 4096 +-1, every 7th byte below 400, 60 PRNG offsets), final flush/seek/rewrite. Census: sdfx goroutines after k=1..K renders must not grow after warm-up.',
+   'K=30 quick / 200 thorough renders per sink/renderer; watchdog expiry is inconclusive, never a violation.',
+   'DESIGN.md 2/C12')
+
 NOT_YET = 'monitor not built yet in this round (planned in DESIGN.md section 2); not claimed until its check exists'
 NA = {}
 
